@@ -718,21 +718,21 @@ AXIOMS["<impl IntoIterator for &'a [T]>::into_iter"] = ax_slice_iter
 AXIOM_DOC["<impl IntoIterator for &'a [T]>::into_iter"] = "as <[T]>::iter"
 
 
-def _ax_slice_iter_next(call):
-    """next element of a slice iterator whose slice has a known small length: a reference to element i"""
-    addr = call.deref_addr(call.args[0])
-    it = call.deref(call.args[0])
+def _slice_iter_step(call, addr):
+    """advance the slice iterator stored at addr: ('some', element ref leaf) / ('none',) / None when the slice's
+    length is not a small known number"""
+    it = call.st.read_tree(addr[0], addr[1])
     sl = it.get((("f", "@slice"),))
-    if addr is None or not sl or sl[0] != "ref":
-        return NotImplemented
+    if not sl or sl[0] != "ref":
+        return None
     n = call.interp.len_of(call.st, sl)
     if n[0] != "int" or n[1] > 6:
-        return NotImplemented
+        return None
     i = it.get((("f", "@idx"),), ("int", 0))
     if i[0] != "int":
-        return NotImplemented
+        return None
     if i[1] >= n[1]:
-        return call.ret(mk_variant("None"))
+        return ("none",)
     # element address: through a prefix sub-slice to its base, else directly under the slice's own root
     root, path = sl[1], sl[2]
     base = call.st.mem.get(root, {}).get(path + (("$base0",),))
@@ -740,15 +740,115 @@ def _ax_slice_iter_next(call):
         root, path = base[1], base[2]
     elem_path = path + (("f", "#%d" % i[1]),)
     if not any(p[:len(elem_path)] == elem_path for p in call.st.mem.get(root, {})):
-        return NotImplemented
+        return None
     call.st.write_leaf(addr[0], addr[1] + (("f", "@idx"),), ("int", i[1] + 1))
-    return call.ret(mk_variant("Some", leaf_tree(("ref", root, elem_path))))
+    return ("some", ("ref", root, elem_path))
+
+
+def _ax_slice_iter_next(call):
+    """next element of a slice iterator whose slice has a known small length: a reference to element i"""
+    addr = call.deref_addr(call.args[0])
+    if addr is None:
+        return NotImplemented
+    r = _slice_iter_step(call, addr)
+    if r is None:
+        return NotImplemented
+    if r[0] == "none":
+        return call.ret(mk_variant("None"))
+    return call.ret(mk_variant("Some", leaf_tree(r[1])))
+
+
+@axiom("<I as IntoIterator>::into_iter", doc="every iterator is its own IntoIterator (blanket impl): identity")
+def ax_iter_into_iter(call):
+    return call.ret(dict(call.args[0]))
+
+
+@axiom("Iterator::chain", doc="chain of two slice iterators: remembers both halves")
+def ax_iter_chain(call):
+    a, b = call.args[0], call.args[1]
+    if (("f", "@slice"),) not in a or (("f", "@slice"),) not in b:
+        return NotImplemented
+    out = {(): TOP}
+    for half, t in (("@a", a), ("@b", b)):
+        for pth, l in t.items():
+            out[(("f", half),) + pth] = l
+    return call.ret(out)
+
+
+@axiom("<Chain<A, B> as Iterator>::next", doc="chain of two slice iterators of known small length: the first half's elements, then the second's")
+def ax_chain_next(call):
+    addr = call.deref_addr(call.args[0])
+    if addr is None:
+        return NotImplemented
+    it = call.st.read_tree(addr[0], addr[1])
+    if (("f", "@a"), ("f", "@slice")) not in it or (("f", "@b"), ("f", "@slice")) not in it:
+        return NotImplemented
+    for half in ("@a", "@b"):
+        r = _slice_iter_step(call, (addr[0], addr[1] + (("f", half),)))
+        if r is None:
+            return NotImplemented
+        if r[0] == "some":
+            return call.ret(mk_variant("Some", leaf_tree(r[1])))
+    return call.ret(mk_variant("None"))
 
 
 AXIOMS["<Iter<'a, T> as Iterator>::next"] = _ax_slice_iter_next
 AXIOM_DOC["<Iter<'a, T> as Iterator>::next"] = "slice iterator over a slice of known small length: Some(&s[i]) in order, then None"
 AXIOMS["<Iter<'a, T> as Iterator>::any"] = _ax_slice_any
 AXIOM_DOC["<Iter<'a, T> as Iterator>::any"] = "false over an empty slice; membership when the predicate is equality with a captured value and the elements are known"
+
+
+def _pure_predicate_closure(prog, leaf):
+    """the closure makes no calls at all (a comparison of its argument with constants / captured scalars)"""
+    if leaf[0] != "closure":
+        return False
+    body = prog.bodies.get(leaf[1])
+    return body is not None and not list(body.calls())
+
+
+@axiom("<Iter<'a, T> as Iterator>::position",
+       doc="search of a fresh slice iterator with a call-free predicate: None, or Some(P) with P < len and the predicate true of element P")
+def ax_slice_position(call):
+    it = call.deref(call.args[0])
+    sl = it.get((("f", "@slice"),))
+    idx = it.get((("f", "@idx"),))
+    cl = tree_leaf(call.args[1])
+    ident = tree_leaf(it)
+    if (not sl or sl[0] != "ref" or (idx is not None and idx != ("int", 0)) or ident[0] != "term"
+            or not _pure_predicate_closure(call.interp.prog, cl)):
+        return NotImplemented
+    interp = call.interp
+    n = interp.len_of(call.st, sl)
+    P = ("term", ("app", "<Iter<'a, T> as Iterator>::position", ident, cl))
+    res = []
+    # not found
+    ns = call.st.clone()
+    r = _rebind(call, ns).ret(mk_variant("None"), ns)
+    res.extend(r if r is not None else [ns])
+    # found at P
+    if n != ("int", 0):
+        st = call.st
+        if interp.assume(st, ("lt", P, n), True) is not False:
+            st.facts.setdefault(P[1], ("iv", ((0, (1 << 63) - 1),)))
+            elem = ("ref", sl[1], sl[2] + (("f", "[%r]" % (P[1],)),))
+            c2 = _rebind(call, st)
+
+            def on_return(interp_, st_, ret):
+                l = tree_leaf(ret)
+                if l == ("int", 0):
+                    return []
+                if l[0] == "term" and interp_.assume(st_, l[1], True) is False:
+                    return []
+                fr = st_.frames[-1]
+                st_.write_tree(c2.dest[0], c2.dest[1], mk_variant("Some", leaf_tree(P)))
+                return interp_.goto(st_, fr, c2.term["target"])
+            r = interp.call_closure(c2, call.args[1], [leaf_tree(elem)], on_return)
+            if r is NotImplemented:
+                rr = c2.ret(mk_variant("Some", leaf_tree(P)), st)
+                res.extend(rr if rr is not None else [st])
+            else:
+                res.extend(r if r is not None else [st])
+    return res
 
 
 # ------------------------------------------------------------------------------ by-value iteration over a fixed array
